@@ -67,6 +67,11 @@ def layout(r, coin, blocks, callback="csvdump", huge=False, first_height=0):
         s.extra_files["blk00x01.dat"] = GC.rb(r, 10)
         s.extra_files["xblk00001.dat"] = GC.rb(r, 10)
         s.extra_files["blk00001.dat.bak"] = GC.rb(r, 10)
+        # names that become a used file number if prefix/extension were stripped repeatedly: must be ignored
+        for nm in list(names.values())[:2]:
+            s.extra_files[nm + ".dat"] = GC.rb(r, 40)
+            s.extra_files["blk" + nm] = GC.rb(r, 40)
+            s.extra_files[nm + ".dat.dat"] = GC.rb(r, 40)
     # a blk file no record names
     unused = max(n for n in numbers if n < (1 << 63)) + 1 if any(n < (1 << 63) for n in numbers) else 5
     if unused not in numbers and r.random() < 0.5:
